@@ -374,8 +374,67 @@ func c14Full() []c14Sym {
 	return out
 }
 
+// c14LimitSetLate: the read limit configured AFTER the connection was first used — between two messages, and in the
+// middle of a fragmented message that the application is reading through its reader. From then on no message larger
+// than the limit is delivered, the one in progress included (its earlier fragments count).
+func c14LimitSetLate(c *h.Ctx) {
+	frame := func(fin bool, op byte, masked bool, payload []byte) []byte {
+		b0 := op
+		if fin {
+			b0 |= 0x80
+		}
+		b := []byte{b0, byte(len(payload))}
+		if masked {
+			b[1] |= 0x80
+			b = append(b, 0, 0, 0, 0)
+		}
+		return append(b, payload...)
+	}
+	for _, isServer := range []bool{false, true} {
+		for _, sz := range [][3]int{{10, 5, 12}, {10, 5, 15}, {10, 5, 14}, {1, 100, 50}, {60, 60, 119}, {60, 60, 120}, {0, 20, 10}} {
+			first, second, limit := h.LCGBytes(sz[0], 1), h.LCGBytes(sz[1], 2), int64(sz[2])
+			small := []byte("ok")
+			stream := append(append(append(frame(true, 1, isServer, small), frame(false, 2, isServer, first)...), frame(true, 0, isServer, second)...), frame(true, 1, isServer, small)...)
+			conn := ws.VerifNewConn(newWsFake(stream), isServer, 0, 256, false)
+			in := fmt.Sprintf("role=%s: a 2-byte message; NextReader; read the %d-byte first fragment; SetReadLimit(%d); the %d-byte final fragment; a 2-byte message", roleStr(isServer), sz[0], limit, sz[1])
+			res := h.Safe(func() string {
+				if _, p, err := conn.ReadMessage(); err != nil || string(p) != "ok" {
+					return fmt.Sprintf("first message: %q %v", p, err)
+				}
+				_, rd, err := conn.NextReader()
+				if err != nil {
+					return "NextReader: " + err.Error()
+				}
+				got := make([]byte, len(first))
+				if _, err := io.ReadFull(rd, got); err != nil && len(first) > 0 {
+					return "first fragment: " + err.Error()
+				}
+				conn.SetReadLimit(limit)
+				rest, err := io.ReadAll(rd)
+				total := len(first) + len(second)
+				if int64(total) > limit {
+					if err == nil {
+						return fmt.Sprintf("a %d-byte message was delivered under a limit of %d", len(got)+len(rest), limit)
+					}
+					return "ok"
+				}
+				if err != nil || !bytes.Equal(append(got, rest...), append(append([]byte(nil), first...), second...)) {
+					return fmt.Sprintf("a %d-byte message within the limit of %d: %d bytes, %v", total, limit, len(got)+len(rest), err)
+				}
+				if _, p, err := conn.ReadMessage(); err != nil || string(p) != "ok" {
+					return fmt.Sprintf("the message after it: %q %v", p, err)
+				}
+				return "ok"
+			})
+			c.Hold(res == "ok", "read_limit.configured_after_first_use", in, res, "ok")
+			c.Case("limit-set-late/"+roleStr(isServer), in, true)
+		}
+	}
+}
+
 func c14(c *h.Ctx) {
 	r := c.R
+	c14LimitSetLate(c)
 	// 0. regression corpus: F14 and its siblings (fixed), as raw streams and as frames.
 	pay100 := strings.Repeat("78", 100)
 	for _, isServer := range []bool{false} {
